@@ -15,6 +15,7 @@ import Driver.MtHist
 import Driver.BddChk
 import Driver.ParseChk
 import Driver.MetaChk
+import Driver.LtsEngineChk
 import Driver.BinRelChk
 import Driver.BddSimChk
 import Driver.OrdVecChk
@@ -408,7 +409,11 @@ def checkLts (args res : List String) : Except String (Findings × String) := do
     let missing := ref.filter (fun p => !rel.contains p)
     f := f ++ [s!"violation lts-simulation differs from the greatest simulation inside the initial preorder: extra={extra} missing={missing}"]
   let between := ref.length > k && ref.length < k * k
-  pure (f, s!"overload={overload} between={bchar between} big={bchar (n > 12)}")
+  -- the model of the partition–relation engine as coded (`engine_result_eq`, `engine_total`): must return and produce
+  -- exactly the relation the real class produced
+  let (fe, te) ← LtsEngineChk.check args res
+  f := f ++ fe.map (fun x => if x.startsWith "violation " then "mismatch " ++ (x.drop 10).toString else x)
+  pure (f, s!"overload={overload} between={bchar between} big={bchar (n > 12)} {te}")
 
 /-- `cliop <repr> <op> <A> [<B>|<ranks>]`: one command of the real `vata` binary (cli/vata.cc, cli/operations.hh: loading through state
     dictionaries, `-p` / `-s` pruning, the union / product dictionaries of util.cc, dumping by names) judged by the proved deciders.
